@@ -231,6 +231,9 @@ def main(ctx):
         ctx.sample({"base_surfaces": len(j[0]["surf"]), "calls": j[1][:8]})
     for f in fails:
         ctx.report(f["clause"], classify(f), f["msg"], {"base": f["base"], "hist": f["hist"]})
+    # ---- 2b. update() as a multi-step process: spec/UpdateOrder.tla ----------
+    from harness.drivers import c01_update
+    c01_update.run(ctx)
     # ---- 3. code -> spec ---------------------------------------------------
     from harness.drivers import c01_trace
     c01_trace.run(ctx, jobs_sim)
